@@ -422,6 +422,16 @@ func (fe *FactEngine) killPath(a *Alt, path *Term) {
 		}
 	}
 	ps := path.String()
+	// a partial write (field / element of a local) invalidates bindings of the enclosing value as a
+	// whole: "me := meₚ; me.inner = x" must not leave me ≡ meₚ behind
+	for pre := path; pre != nil && (pre.Op == OpField || pre.Op == OpIndex); {
+		pre = pre.Args[0]
+		if _, ok := a.bind[pre.String()]; ok {
+			delete(a.bind, pre.String())
+			delete(a.bkey, pre.String())
+			a.sig = ""
+		}
+	}
 	a.killIf(func(_ string, t *Term) bool {
 		hit := false
 		t.Walk(func(x *Term) bool {
@@ -635,6 +645,11 @@ func (fe *FactEngine) step(ff *fnFacts, ins ssa.Instruction, st DNF, depth int) 
 				continue
 			}
 			p := normalizeTerm(&Term{Op: OpDeref, Args: []*Term{fe.resolve(a, ins.Addr)}})
+			if raw := fe.ts.Path(ins.Addr); rootedAtLocal(raw) {
+				// the written location is (part of) a local cell: bindings describe the cell's *value* and
+				// must not be substituted into its address
+				p = raw
+			}
 			v := fe.resolve(a, ins.Val)
 			vNonNil, vKnown := a.facts["n:"+v.String()]
 			fe.killPath(a, p)
